@@ -63,7 +63,6 @@ class SymReal:
     """value = n/d with d > 0 under the path condition. sign: '+', '0+' or None (known sign tag)."""
 
     __slots__ = ("n", "d", "sign")
-    __array_priority__ = 1000
 
     def __init__(self, n, d=_ONE, sign: Optional[str] = None):
         self.n = n
@@ -323,7 +322,6 @@ class SymInt:
     """Symbolic mathematical integer (Python int semantics)."""
 
     __slots__ = ("z",)
-    __array_priority__ = 1000
 
     def __init__(self, z):
         self.z = z
@@ -487,7 +485,6 @@ class LogVal:
     is ever evaluated."""
 
     __slots__ = ("coef", "q")
-    __array_priority__ = 2000
 
     def __init__(self, coef: Dict[LogAtom, Fraction], q: Optional[SymReal] = None):
         self.coef = {a: c for a, c in coef.items() if c != 0}
